@@ -800,6 +800,17 @@ pub fn run(args: &Args) -> Report {
                 }
             }
         }
+        // IP-literal URI hosts: the client sends no server name at all, so whatever the request names must be rejected
+        for uri_host in ["127.0.0.1", "[::1]"] {
+            for host_header in [None, Some("-"), Some("127.0.0.1"), Some("example.com"), Some("localhost"), Some("")] {
+                for h2 in [false, true] {
+                    if host_header == Some("") && h2 {
+                        continue;
+                    }
+                    scs.push(SniCaseE { uri_host, host_header, h2 });
+                }
+            }
+        }
         let sr = &scs;
         let part = crate::report::parallel(args.threads, scs.len() as u64, "tlsworld", |i, r| {
             let c = &sr[i as usize];
@@ -812,7 +823,11 @@ pub fn run(args: &Args) -> Report {
             // client's HTTP/2 checks); HTTP/1.1 -> the caller's Host header, else the one derived from the URI
             let strip = |s: &str| s.rsplit_once(':').filter(|(_, p)| p.chars().all(|ch| ch.is_ascii_digit())).map(|(h, _)| h.to_string()).unwrap_or(s.to_string()).to_ascii_lowercase();
             let named = if c.h2 { c.uri_host.to_string() } else { c.host_header.unwrap_or(c.uri_host).to_string() };
-            let equal = strip(&named) == c.uri_host.to_ascii_lowercase();
+            let sni_sent = c.uri_host.trim_start_matches('[').trim_end_matches(']').parse::<std::net::IpAddr>().is_err();
+            let equal = sni_sent && strip(&named) == c.uri_host.to_ascii_lowercase();
+            if !sni_sent {
+                p.count("e2e_connections_without_server_name", 1);
+            }
             let reached = handled.iter().any(|h| h.header_id == Some(55));
             p.count(if equal { "e2e_must_forward" } else { "e2e_must_reject" }, 1);
             if res.as_ref().err().map(|e| e.starts_with("PANIC") || e == "TIMEOUT").unwrap_or(false) {
